@@ -56,14 +56,14 @@ def parseAct : List String → Option Act
 
 def hpcName : HPC → String
   | .h0 => "h0" | .inCC => "inCC" | .killClose => "killClose" | .preStart => "preStart" | .waitC => "waitC"
-  | .preCD => "preCD" | .inCD => "inCD" | .final _ => "final" | .returned => "returned"
+  | .preCD => "preCD" | .inCD => "inCD" | .final => "final" | .returned => "returned"
 
 def b01 (b : Bool) : String := if b then "1" else "0"
 
 def holders (s : St) : Nat := s.conns.countP (fun c => holding c.pc)
 
 def summary (s : St) : String :=
-  s!"{s.conns.countP (·.entry)} {s.conns.countP (fun c => wopen c.pc)} {b01 s.centry} {b01 s.cwopen} {holders s} {hpcName s.hpc} {s.nCC} {s.nCD} {b01 s.lateOpen}"
+  s!"{s.conns.countP (·.entry)} {s.conns.countP (fun c => wopen c.pc)} {b01 s.centry} {b01 s.cwopen} {holders s} {hpcName s.hpc} {s.nCC} {s.nCD} {b01 s.lateOpen} {s.hcount}"
 
 def connSummary (s : St) : String :=
   if s.conns.isEmpty then "-" else
@@ -78,7 +78,7 @@ def c09Step (s : St) (line : String) : St × String :=
       | none => (s, "stuck")
     | _, _ => (s, "bad-op")
   | ["f", t] => match parseTid t with
-    | some t => match step s (.forget t) with
+    | some t => match step s (.cb t) with
       | some s' => (s', "ok")
       | none => (s, "stuck")
     | none => (s, "bad-op")
